@@ -30,8 +30,10 @@ RULE = ('Exhaustive enumeration, no sampling: (a) every route of the API x '
 
 P1 = gen.PROV[0]
 P2 = gen.PROV[1]
+P3 = gen.PROV[2]
 C1 = gen.CONS[0]
 C2 = gen.CONS[1]
+C3 = gen.CONS[2]
 AGG = gen.AGGS[0]
 AVX = 'HW_CPU_X86_AVX2'
 SSD = 'STORAGE_DISK_SSD'
@@ -71,6 +73,17 @@ def build_fixture(svc):
                          'project_id': 'proj-a', 'user_id': 'user-a',
                          'consumer_generation': None,
                          'consumer_type': 'INSTANCE'}), 204)
+    # a consumer written before consumer types existed (type NULL)
+    ok(svc.request('POST', '/resource_providers', version='1.39',
+                   body={'name': 'p3', 'uuid': P3}), 200)
+    ok(svc.request('PUT', '/resource_providers/%s/inventories' % P3,
+                   version='1.39',
+                   body={'resource_provider_generation': 0, 'inventories': {
+                       'DISK_GB': {'total': 10}}}), 200)
+    ok(svc.request('PUT', '/allocations/' + C3, version='1.37',
+                   body={'allocations': {P3: {'resources': {'DISK_GB': 1}}},
+                         'project_id': 'proj-b', 'user_id': 'user-b',
+                         'consumer_generation': None}), 204)
     return svc.snapshot()
 
 
@@ -498,6 +511,13 @@ FEATURES = [
     F('consumer_type in GET /allocations/{c}', 38,
       lambda v: ('GET', '/allocations/' + C1, None),
       lambda r: r.json.get('consumer_type') == 'INSTANCE'),
+    F('consumer_type "unknown" reported for an untyped consumer', 38,
+      lambda v: ('GET', '/allocations/' + C3, None),
+      lambda r: r.json.get('consumer_type') == 'unknown', base=12),
+    F('untyped consumers grouped as "unknown" in GET /usages', 38,
+      lambda v: ('GET', '/usages?project_id=proj-b', None),
+      lambda r: r.json['usages'].get('unknown', {}).get(
+          'consumer_count') == 1, base=9),
     F('consumer_type filter on GET /usages', 38,
       lambda v: ('GET', '/usages?project_id=proj-a&consumer_type=INSTANCE',
                  None), st(200), base=9),
